@@ -33,6 +33,7 @@ type c01Case struct {
 	Msgs      int
 	Buffer    int
 	Blocking  bool
+	Taps      int // late subscriptions to an intermediate topic made while the pipeline is busy (each acks whatever it gets)
 	Faults    []c01Fault
 }
 
@@ -47,6 +48,13 @@ func runC01(c *Ctx) error {
 			for _, fi := range []bool{false, true} {
 				cases = append(cases, c01Case{Class: "no-fault", K: k, FanOut: fo, FanIn: fi, OneRouter: k%2 == 0, Msgs: 2, Buffer: k % 3, Blocking: fo == 0 && k == 2})
 			}
+		}
+	}
+	// late taps on an intermediate topic of a busy pipeline (blocking and not): the pipeline must not care
+	for _, blk := range []bool{true, false} {
+		for _, k := range []int{2, 3} {
+			cases = append(cases, c01Case{Class: "late-taps", K: k, Msgs: 3, Blocking: blk, Taps: 6, OneRouter: k == 3})
+			cases = append(cases, c01Case{Class: "late-taps", K: k, Msgs: 3, Blocking: blk, Taps: 6, Faults: []c01Fault{{2, 1, "herr"}, {2, 2, "pbefore"}}})
 		}
 	}
 	// one fault: every stage x call 1..2 x kind, on K = 1, 2 (3 in thorough)
@@ -197,6 +205,7 @@ func c01Run(r *tr.Run, cs c01Case) (injected int) {
 		mk := func(tin string) message.HandlerFunc {
 			return func(msg *message.Message) ([]*message.Message, error) {
 				x := msg.UUID
+				msg.Metadata.Set("seen-by", fmt.Sprint(st)) // stages annotate what they received (as the correlation-id middleware does)
 				mu.Lock()
 				hcalls[st]++
 				n := hcalls[st]
@@ -282,13 +291,46 @@ func c01Run(r *tr.Run, cs c01Case) (injected int) {
 		}
 		want += len(expect)
 		sw.Add(1)
+		literal := i%2 == 0
+		r.Emit("srcpub", "x", x, "ok", true, "topic", tp, "expect", expect)
 		go func() {
 			defer sw.Done()
 			// logged before the call: the message is in the topic as soon as Publish linearizes
-			err := gc.Publish(tp, message.NewMessage(x, []byte("payload")))
+			src := message.NewMessage(x, []byte("payload"))
+			if literal {
+				src = &message.Message{UUID: x, Payload: []byte("payload")} // built without the constructor (nil metadata)
+			}
+			err := gc.Publish(tp, src)
 			_ = err
 		}()
-		r.Emit("srcpub", "x", x, "ok", true, "topic", tp, "expect", expect)
+	}
+	if cs.Taps > 0 {
+		sw.Add(1)
+		go func() {
+			defer sw.Done()
+			for k := 0; k < cs.Taps; k++ {
+				time.Sleep(200 * time.Microsecond)
+				done := make(chan struct{})
+				go func() {
+					defer close(done)
+					ch, err := gc.Subscribe(ctx, topic(2))
+					if err != nil {
+						return
+					}
+					go func() {
+						for m := range ch {
+							m.Ack()
+						}
+					}()
+				}()
+				select {
+				case <-done:
+				case <-time.After(HangBound):
+					r.Emit("hung", "what", "Subscribe to a topic of the busy pipeline")
+					return
+				}
+			}
+		}()
 	}
 	deadline := time.Now().Add(HangBound)
 	for time.Now().Before(deadline) && int(atomic.LoadInt32(&ngot)) < want {
